@@ -285,6 +285,10 @@ func (matrix *SparseReal64Matrix) AsVector() Vector {
   return matrix.AsSparseReal64Vector()
 }
 func (matrix *SparseReal64Matrix) storageLocation() uintptr {
+  if matrix.values.Dim() == 0 {
+    // no storage to point into: the matrix header identifies an empty matrix
+    return uintptr(unsafe.Pointer(matrix))
+  }
   return uintptr(unsafe.Pointer(matrix.values.AT(0)))
 }
 /* const interface
